@@ -61,6 +61,11 @@ ConformFwd == (Good /\ Last.sherr = "") => \A p \in Party : disk[p].fwd = JFwd(L
 \* transaction (counted from the bbolt file's meta pages), so call boundaries are all the crash points there are
 AtMostOneTx == Good => \A p \in Party : Last.ntx[p] <= 1 /\ (p # Last.p => Last.ntx[p] = 0)
 
+\* C02: static channel parameters that enter the scripts survive a reload: the lease expiry (ThawHeight) of a
+\* script-enforced lease channel (written once, when the channel is first synced to disk)
+ConformStatic == Good => \A p \in Party : /\ Last.st[p].thaw = ctx.thaw
+                                          /\ Last.sherr = "" => Last.sh[p].thaw = ctx.thaw
+
 ReloadOpens   == Live => Last.sherr \in {"", "skipped"}
 Shadowed == Good /\ Last.sherr = ""
 ConformShadowCounters == Shadowed => \A p \in Party : LET r == Restored(p) j == Last.sh[p] IN
@@ -137,7 +142,7 @@ ReleaseRuleReest == (Good /\ Last.a = "RecvReest" /\ Last.relh >= 0 /\ Last.sher
                        /\ Last.relh \in released[Last.p]
                        /\ Last.relh < Last.sh[Last.p].LC[1].h
 
-TInit == Init /\ opener = "A" /\ l = 1 /\ ctx = [type |-> "tweakless", dust |-> [A |-> 0, B |-> 0]]
+TInit == Init /\ opener = "A" /\ l = 1 /\ ctx = [type |-> "tweakless", dust |-> [A |-> 0, B |-> 0], thaw |-> 0]
 
 Is(a) == l <= Len(Trace) /\ Trace[l].a = a /\ l' = l + 1
 P == Trace[l].p
@@ -158,7 +163,7 @@ Reset ==
   /\ nfees' = 0
   /\ opener' = Trace[l].opener
   /\ bad' = "none"
-  /\ ctx' = [type |-> Trace[l].type, dust |-> [A |-> Trace[l].dust.A, B |-> Trace[l].dust.B]]
+  /\ ctx' = [type |-> Trace[l].type, dust |-> [A |-> Trace[l].dust.A, B |-> Trace[l].dust.B], thaw |-> Trace[l].thaw]
 
 \* a constraint rejection of AddHTLC (reserve, fee buffer, max in flight) is not judged: the
 \* state must be unchanged, and the executor ends the behaviour there
